@@ -53,9 +53,10 @@ type RuleStat struct {
 
 // Ctx is the loaded program plus the obligation log.
 type Ctx struct {
-	fnLookups map[string]bool          // every (package|name) asked of fn, for -anchors
-	renamed   map[string]*ssa.Function // anchors found by signature after a rename
-	extendsWalks   []*ssa.Function // loops that walk the chord table's extends links (loopmeasure.go)
+	callersOf      map[*ssa.Function]map[*ssa.Function]bool // static callers (rules_c09.go ownerName)
+	fnLookups      map[string]bool                          // every (package|name) asked of fn, for -anchors
+	renamed        map[string]*ssa.Function                 // anchors found by signature after a rename
+	extendsWalks   []*ssa.Function                          // loops that walk the chord table's extends links (loopmeasure.go)
 	extendsChecked bool
 	lexTabs        *lexTables // cached lexer tables (rules_tab2.go)
 	lexTabsErr     error
@@ -461,7 +462,6 @@ func sortedKeys[M ~map[string]V, V any](m M) []string {
 	sort.Strings(ks)
 	return ks
 }
-
 
 // resolveAnchors looks every known anchor up once, so that a renamed helper gets its stable alias before any rule runs.
 func (c *Ctx) resolveAnchors() {
